@@ -31,6 +31,11 @@ Record case_C20 := {
   c20_jobs_before : list jobrec;          (* read from the raw files of the configured workspace *)
   c20_open_after : result (list jobrec);  (* get_project(root) after the migration, jobs by id  *)
   c20_name_after : option json;           (* project.document.get("signac_project_name") after *)
+  c20_hist : list (node * list gobs);
+     (* earlier states of the SAME directory in the SAME process (history): for each, the tree it
+        then had and what the four entry points did; afterwards the directory was replaced by the
+        next state and finally by c20_tree.  The model is stateless: every step is judged on its own
+        tree, so any state the implementation carries from one lookup to the next shows up. *)
   c20_orig : option (option str * option str)
      (* legacy layout: the ORIGINAL project name and workspace_dir the legacy writer was given,
         before ConfigObj quoted / un-quoted them (None for other layouts) *)
@@ -96,8 +101,18 @@ Definition agree_mig (c : case_C20) : bool :=
      | _, _ => false
      end.
 
+Definition with_tree (c : case_C20) (t : node) : case_C20 :=
+  {| c20_base := c20_base c; c20_tree := t; c20_root := c20_root c; c20_cwd := c20_cwd c;
+     c20_gate := c20_gate c; c20_mig := c20_mig c; c20_mig_post := c20_mig_post c;
+     c20_again := c20_again c; c20_again_changed := c20_again_changed c;
+     c20_jobs_before := c20_jobs_before c; c20_open_after := c20_open_after c;
+     c20_name_after := c20_name_after c; c20_hist := []; c20_orig := c20_orig c |}.
+
+Definition agree_hist (c : case_C20) : bool :=
+  forallb (fun st => forallb (agree_g (with_tree c (fst st))) (snd st)) (c20_hist c).
+
 Definition mismatch_C20 (c : case_C20) : bool :=
-  negb (forallb (agree_g c) (c20_gate c) && agree_mig c).
+  negb (forallb (agree_g c) (c20_gate c) && agree_mig c && agree_hist c).
 
 (* ------------------------------------------------------------------ the property (oracle) *)
 Inductive layout := LV1 (c : cfgrec) | LV2 (c : cfgrec) | LNone.
@@ -287,7 +302,11 @@ Definition orig_ok (c : case_C20) : bool :=
   | None, _ => true
   end.
 
-Definition holds_C20 (c : case_C20) : bool := forallb (gate_ok c) (c20_gate c) && mig_ok c && orig_ok c.
+Definition hist_ok (c : case_C20) : bool :=
+  forallb (fun st => forallb (gate_ok (with_tree c (fst st))) (snd st)) (c20_hist c).
+
+Definition holds_C20 (c : case_C20) : bool :=
+  forallb (gate_ok c) (c20_gate c) && mig_ok c && orig_ok c && hist_ok c.
 Definition violation_C20 (c : case_C20) : bool := negb (holds_C20 c).
 
 Definition mismatches_C20 (cs : list case_C20) : list N := indices_where mismatch_C20 cs.
